@@ -39,6 +39,9 @@ var sliceFiles = map[string]bool{
 	"internal/shell/zsh/namedDirectory.go": true, "pkg/match/match.go": true, "internal/pflagfork/flagset.go": true,
 }
 
+// the lookup-or-create of the completion registry (C09): statements with their line offset inside the function
+var registryFuncs = map[string]bool{"storage.go:_storage.get": true}
+
 // the functions whose branch conditions guard that arithmetic
 var guardFuncs = map[string]bool{
 	"complete.go:complete": true, "internal/shell/bash/patch.go:CompLine": true, "internal/shell/bash/patch.go:Patch": true,
@@ -75,7 +78,7 @@ func main() {
 		os.Exit(2)
 	}
 	repo := os.Args[1]
-	var mapRange, captured, goStmt, fileWrite, indexWrite, invokeCalls, sliceSites, guardSites inv
+	var mapRange, captured, goStmt, fileWrite, indexWrite, invokeCalls, sliceSites, guardSites, registrySites inv
 	for _, d := range dirs {
 		fset := token.NewFileSet()
 		pkgs, err := parser.ParseDir(fset, filepath.Join(repo, d), func(fi os.FileInfo) bool {
@@ -220,6 +223,9 @@ func main() {
 									}
 								}
 							case *ast.AssignStmt:
+								if registryFuncs[where] {
+									registrySites.add(where + " @" + strconv.Itoa(fset.Position(v.Pos()).Line-fset.Position(fd.Pos()).Line) + ": " + src(fset, v))
+								}
 								for _, l := range v.Lhs {
 									if ix, ok := l.(*ast.IndexExpr); ok {
 										if nm := lastName(ix.X); nm == "" || !mapNames[nm] {
@@ -317,6 +323,13 @@ func main() {
 								if guardFuncs[where] {
 									guardSites.add(where + ": if " + src(fset, v.Cond))
 								}
+								if registryFuncs[where] {
+									c := src(fset, v.Cond)
+									if v.Init != nil {
+										c = src(fset, v.Init) + "; " + c
+									}
+									registrySites.add(where + " @" + strconv.Itoa(fset.Position(v.Pos()).Line-fset.Position(fd.Pos()).Line) + ": if " + c)
+								}
 							case *ast.CaseClause:
 								if guardFuncs[where] {
 									for _, e := range v.List {
@@ -339,6 +352,9 @@ func main() {
 								}
 							case *ast.CallExpr:
 								s := src(fset, v.Fun)
+								if registryFuncs[where] && (strings.HasSuffix(s, "Lock") || strings.HasSuffix(s, "Unlock")) {
+									registrySites.add(where + " @" + strconv.Itoa(fset.Position(v.Pos()).Line-fset.Position(fd.Pos()).Line) + ": " + s)
+								}
 								if fname == "Action.Invoke" {
 									invokeCalls.add(where + ": call " + s)
 								}
@@ -385,6 +401,7 @@ func main() {
 	emit("invoke_call_sites", invokeCalls)
 	emit("slice_sites", sliceSites)
 	emit("guard_sites", guardSites)
+	emit("registry_sites", registrySites)
 	old, _ := os.ReadFile(os.Args[2])
 	if string(old) != out.String() {
 		if err := os.WriteFile(os.Args[2], []byte(out.String()), 0o644); err != nil {
